@@ -42,10 +42,8 @@ func runDedup(t *testing.T, script []string, gen *hx.Rand) (*caseResult, []strin
 			snapshot()
 			perKey := map[int][]int{}
 			cur := map[int]string{}
-			for _, part := range strings.Fields(obs) {
-				i := strings.Index(part, ":")
-				id, _ := strconv.Atoi(part[:i])
-				cur[id] = part[i+1:]
+			for id, st := range w.states {
+				cur[id] = st
 				if g := a.at(id); g != nil {
 					for _, k := range g.keys {
 						perKey[k] = append(perKey[k], id)
